@@ -128,7 +128,7 @@ Qed.
 Theorem hrevolve_no_disk_slot l ram wd rd uf ub L : 0 <= l -> 1 <= ram -> hrevolve l ram 0 wd rd uf ub = Ok L -> Forall nodisk L.
 Proof.
   intros Hl Hram H. unfold hrevolve in H.
-  destruct (hopt_table_total l ram 0 Hl Hram ltac:(lia) 0 wd 0 rd ub uf) as (T & ET & HI). rewrite ET in H. cbn [bind] in H.
+  destruct (hopt_table_total l ram 0 Hl ltac:(lia) ltac:(lia) ltac:(lia) 0 wd 0 rd ub uf) as (T & ET & HI). rewrite ET in H. cbn [bind] in H.
   set (p := {| c0v := ram; c1v := 0; w0v := 0; w1v := wd; r0v := 0; r1v := rd; ufv := uf; ubv := ub |}) in *.
   destruct (Z.to_nat (4 * l + 8)) as [|f] eqn:Ef; [lia|]. cbn [recurse] in H.
   destruct (Z.eqb_spec l 0) as [->|Hl0]; [injection H as <-; repeat constructor|].
